@@ -130,6 +130,8 @@ pub struct KState {
     pub futs: Vec<Option<(TokenFut, Arc<CountWaker>)>>,
     pub tokens: Vec<Option<fastcgi_server::async_io::Token>>,
     pub shutdown: Option<(Pin<Box<dyn Future<Output = ()>>>, Arc<CountWaker>)>,
+    /// a second waker for the shutdown future (`g.poll2`): the wake-up must go to whichever polled last
+    pub cw2: Option<Arc<CountWaker>>,
 }
 impl KState {
     fn suffix(&self) -> String {
@@ -726,15 +728,18 @@ impl Impl {
                 let mut toks = vec![];
                 for _ in 0..n { let f = runner.get_token(); futures_util::pin_mut!(f); match f.poll(&mut cx) { Poll::Ready(t) => toks.push(Some(t)), Poll::Pending => return Some("get_token-pending".into()) } }
                 let fut: Pin<Box<dyn Future<Output = ()>>> = Box::pin(runner.shutdown());
-                self.k = KState { tokens: toks, shutdown: Some((fut, Arc::new(CountWaker(Default::default())))), ..Default::default() };
+                self.k = KState { tokens: toks, shutdown: Some((fut, Arc::new(CountWaker(Default::default())))), cw2: Some(Arc::new(CountWaker(Default::default()))), ..Default::default() };
                 "ok".into()
             }
-            ["g.poll"] => {
+            ["g.poll"] | ["g.poll2"] => {
+                let second = a[0] == "g.poll2";
+                let cw2 = self.k.cw2.clone()?;
                 let Some((fut, cw)) = self.k.shutdown.as_mut() else { return Some("no-future".into()) };
-                let waker = std::task::Waker::from(cw.clone());
+                let waker = std::task::Waker::from(if second { cw2.clone() } else { cw.clone() });
                 let mut cx = Context::from_waker(&waker);
                 let r = fut.as_mut().poll(&mut cx);
-                format!("{} wakes={}", if r.is_ready() { "ready" } else { "pending" }, cw.0.load(std::sync::atomic::Ordering::SeqCst))
+                let (wa, wb) = (cw.0.load(std::sync::atomic::Ordering::SeqCst), cw2.0.load(std::sync::atomic::Ordering::SeqCst));
+                format!("{} wakes={} wb={wb}", if r.is_ready() { "ready" } else { "pending" }, wa + wb)
             }
             ["g.pollh", pt, t] => {
                 let point: u8 = pt.parse().ok()?;
@@ -753,13 +758,16 @@ impl Impl {
                 fastcgi_server::async_io::verif_hook::set(None);
                 // hook not reached (future completed before the upgrade): the token was not dropped, put it back
                 if let Some(t) = cell.lock().unwrap().take() { self.k.tokens[i] = Some(t); }
-                format!("{} wakes={} hook={}", if r.is_ready() { "ready" } else { "pending" }, cw.0.load(std::sync::atomic::Ordering::SeqCst), if fired.load(std::sync::atomic::Ordering::SeqCst) { "fired" } else { "not-reached" })
+                let wb = self.k.cw2.as_ref().map_or(0, |c| c.0.load(std::sync::atomic::Ordering::SeqCst));
+                let (_, cw) = self.k.shutdown.as_ref().unwrap();
+                format!("{} wakes={} wb={wb} hook={}", if r.is_ready() { "ready" } else { "pending" }, cw.0.load(std::sync::atomic::Ordering::SeqCst) + wb, if fired.load(std::sync::atomic::Ordering::SeqCst) { "fired" } else { "not-reached" })
             }
             ["g.drop", t] => {
                 let i: usize = t.parse().ok()?;
                 match self.k.tokens.get_mut(i) { Some(slot @ Some(_)) => { *slot = None; } _ => return Some("no-token".into()) }
-                let w = self.k.shutdown.as_ref().map_or(0, |(_, cw)| cw.0.load(std::sync::atomic::Ordering::SeqCst));
-                format!("ok wakes={w}")
+                let wb = self.k.cw2.as_ref().map_or(0, |c| c.0.load(std::sync::atomic::Ordering::SeqCst));
+                let w = self.k.shutdown.as_ref().map_or(0, |(_, cw)| cw.0.load(std::sync::atomic::Ordering::SeqCst)) + wb;
+                format!("ok wakes={w} wb={wb}")
             }
             ["t.run", rest @ ..] => crate::runloop::run_case(rest)?,
             _ => return None,
